@@ -129,81 +129,89 @@ def expand_augassign(tree):
     return out
 
 
+_TASKS = []
+
+
+def _run_task(i):
+    try:
+        return _TASKS[i]()
+    except AnalysisError as e:
+        return "undecided", str(e)[:300]
+    except Exception as e:          # a variant that does not even parse / apply: reported, never silently dropped
+        return "error", f"{type(e).__name__}: {e}"[:300]
+
+
 def run(prop, repo, seed):
+    """all variants are described first (label, expectation, thunk), then evaluated in parallel in forked workers (the thunks close over
+    the parsed tree; nothing is pickled but the small results), then judged"""
+    import ast
+    import json
+    import os
+    import shutil
+    import subprocess
+    import tempfile
+    import multiprocessing
+    from . import refactor, sym
     mod = props.load(prop)
     pinned = getattr(mod, "PINNED", [])
     preserving = getattr(mod, "PRESERVING", [])
-    table = []
-    broken = []
+    files = sorted({p[1] for p in pinned} | {p[1] for p in preserving})
+    table, broken = [], []
     n_applied = 0
+    base_out, _ = run_variant(prop, repo)
+    tasks = []            # (row dict, expectation, thunk); expectation in {"violation", "same", "no-alarm"}
+
+    def add(row, expect, thunk):
+        tasks.append((row, expect, thunk))
+
     for name, relpath, old, new in pinned:
         v = make_variant(repo, relpath, old, new)
         if v is None:
             table.append(dict(variant=name, kind="breaking", outcome="not-applicable (pattern absent on this tree)"))
             continue
         n_applied += 1
-        try:
-            out, detail = run_variant(prop, v)
-        except AnalysisError as e:
-            out, detail = "undecided", str(e)
-        table.append(dict(variant=name, kind="breaking", outcome=out, detail=detail))
-        if out != "violation":
-            broken.append(f"pinned breaking variant '{name}' was not reported ({out}: {detail})")
-    # generic preserving variant: ast round trip of every module touched by the property's pinned list
-    files = sorted({p[1] for p in pinned} | {p[1] for p in preserving})
-    import ast
+        add(dict(variant=name, kind="breaking"), "violation", (lambda v=v: run_variant(prop, v)))
     for relpath in files:
         m = [x for x in repo.modules.values() if x.relpath == relpath]
         if not m:
             continue
-        v = repo.variant(relpath, ast.unparse(m[0].tree).encode("utf-8"))
-        out, detail = run_variant(prop, v)
-        base_out, _ = run_variant(prop, repo)
-        table.append(dict(variant=f"ast round trip of {relpath}", kind="preserving", outcome=out, detail=detail))
-        if out != base_out:
-            broken.append(f"behaviour-preserving ast round trip of {relpath} changed the verdict to {out}: {detail}")
-        v = repo.variant(relpath, ast.unparse(expand_augassign(m[0].tree)).encode("utf-8"))
-        out, detail = run_variant(prop, v)
-        table.append(dict(variant=f"augmented assignments expanded and a debug print added to every function in {relpath}", kind="preserving", outcome=out, detail=detail))
-        if out != base_out:
-            broken.append(f"behaviour-preserving expansion of augmented assignments / debug prints in {relpath} changed the verdict to {out}: {detail}")
-        v = repo.variant(relpath, ast.unparse(_Renamer.rename_module(m[0].tree)).encode("utf-8"))
-        out, detail = run_variant(prop, v)
-        table.append(dict(variant=f"renaming of all function-local variables in {relpath}", kind="preserving", outcome=out, detail=detail))
-        if out != base_out:
-            broken.append(f"behaviour-preserving renaming of locals in {relpath} changed the verdict to {out}: {detail}")
-    # mechanical whole-module refactorings (refactor.py): every site of each kind at once
-    from . import refactor
-    for relpath in files:
-        m = [x for x in repo.modules.values() if x.relpath == relpath]
-        if not m:
-            continue
-        base_out, _ = run_variant(prop, repo)
+        tree = m[0].tree
+        add(dict(variant=f"ast round trip of {relpath}", kind="preserving"), "same",
+            (lambda t=tree, r=relpath: run_variant(prop, repo.variant(r, ast.unparse(t).encode("utf-8")))))
+        add(dict(variant=f"augmented assignments expanded and a debug print added to every function in {relpath}", kind="preserving"), "same",
+            (lambda t=tree, r=relpath: run_variant(prop, repo.variant(r, ast.unparse(expand_augassign(t)).encode("utf-8")))))
+        add(dict(variant=f"renaming of all function-local variables in {relpath}", kind="preserving"), "same",
+            (lambda t=tree, r=relpath: run_variant(prop, repo.variant(r, ast.unparse(_Renamer.rename_module(t)).encode("utf-8")))))
         for title, fn in refactor.MECHANICAL:
-            new_tree = fn(m[0].tree)
-            if ast.dump(new_tree) == ast.dump(m[0].tree):
+            new_tree = fn(tree)
+            if ast.dump(new_tree) == ast.dump(tree):
                 continue
-            v = repo.variant(relpath, ast.unparse(new_tree).encode("utf-8"))
-            out, detail = run_variant(prop, v)
-            table.append(dict(variant=f"{title} in {relpath}", kind="preserving", outcome=out, detail=detail))
-            if out != base_out:
-                broken.append(f"behaviour-preserving rewrite ({title}) of {relpath} changed the verdict to {out}: {detail}")
-    base_out, _ = run_variant(prop, repo)
+            add(dict(variant=f"{title} in {relpath}", kind="preserving"), "same",
+                (lambda t=new_tree, r=relpath: run_variant(prop, repo.variant(r, ast.unparse(t).encode("utf-8")))))
     for name, relpath, old, new in preserving:
         v = make_variant(repo, relpath, old, new)
         if v is None:
             table.append(dict(variant=name, kind="preserving", outcome="not-applicable (pattern absent on this tree)"))
             continue
         n_applied += 1
-        out, detail = run_variant(prop, v)
-        table.append(dict(variant=name, kind="preserving", outcome=out, detail=detail))
-        if out != base_out:
-            broken.append(f"behaviour-preserving variant '{name}' changed the verdict to {out}: {detail}")
+        add(dict(variant=name, kind="preserving"), "same", (lambda v=v: run_variant(prop, v)))
+
+    def patched(pp):
+        tmp = tempfile.mkdtemp(prefix="fsv_var.")
+        try:
+            shutil.copytree(os.path.join(repo.root, "forsys"), os.path.join(tmp, "forsys"), ignore=shutil.ignore_patterns("__pycache__"))
+            subprocess.run(["git", "init", "-q", "."], cwd=tmp, stdout=subprocess.DEVNULL, stderr=subprocess.DEVNULL)
+            r = subprocess.run(["git", "apply", "--whitespace=nowarn", pp], cwd=tmp, stdout=subprocess.DEVNULL, stderr=subprocess.DEVNULL)
+            if r.returncode != 0:
+                return "not-applicable (patch does not apply to this tree)", ""
+            return run_variant(prop, Repo.load(tmp))
+        finally:
+            shutil.rmtree(tmp, ignore_errors=True)
+    have_tree = bool(repo.root) and os.path.isdir(os.path.join(repo.root, "forsys"))
     # independently seeded changes that this property's check is on record as catching (seeded/<id>/meta.json): still caught?
-    import json, os, shutil, subprocess, tempfile
     seeded_dir = os.path.join(core.VERIF, "seeded")
     n_seed = 0
-    if os.path.isdir(seeded_dir) and repo.root and os.path.isdir(os.path.join(repo.root, "forsys")):
+    if os.path.isdir(seeded_dir) and have_tree:
         for sid in sorted(os.listdir(seeded_dir)):
             mp, pp = os.path.join(seeded_dir, sid, "meta.json"), os.path.join(seeded_dir, sid, "patch.diff")
             if not (os.path.isfile(mp) and os.path.isfile(pp)):
@@ -214,25 +222,12 @@ def run(prop, repo, seed):
                 continue
             if prop not in meta.get("detected_by", []):
                 continue
-            tmp = tempfile.mkdtemp(prefix="fsv_seed.")
-            try:
-                shutil.copytree(os.path.join(repo.root, "forsys"), os.path.join(tmp, "forsys"), ignore=shutil.ignore_patterns("__pycache__"))
-                subprocess.run(["git", "init", "-q", "."], cwd=tmp, stdout=subprocess.DEVNULL, stderr=subprocess.DEVNULL)
-                r = subprocess.run(["git", "apply", "--whitespace=nowarn", pp], cwd=tmp, stdout=subprocess.DEVNULL, stderr=subprocess.DEVNULL)
-                if r.returncode != 0:
-                    table.append(dict(variant=f"seeded change {sid}", kind="seeded", outcome="not-applicable (patch does not apply to this tree)"))
-                    continue
-                out, detail = run_variant(prop, Repo.load(tmp))
-                n_seed += 1
-                table.append(dict(variant=f"seeded change {sid}: {str(meta.get('title', ''))[:100]}", kind="seeded", outcome=out, detail=detail))
-                if out != "violation":
-                    broken.append(f"seeded change {sid}, on record as caught by {prop}, is no longer reported ({out}: {detail})")
-            finally:
-                shutil.rmtree(tmp, ignore_errors=True)
-    # behaviour-preserving changes written by independent refactoring sub-agents (benign/<id>/): the verdict must not move
+            n_seed += 1
+            add(dict(variant=f"seeded change {sid}: {str(meta.get('title', ''))[:100]}", kind="seeded", sid=sid), "violation", (lambda pp=pp: patched(pp)))
+    # behaviour-preserving changes written by independent refactoring sub-agents (benign/<id>/): no alarm
     benign_dir = os.path.join(core.VERIF, "benign")
     n_benign = 0
-    if os.path.isdir(benign_dir) and repo.root and os.path.isdir(os.path.join(repo.root, "forsys")):
+    if os.path.isdir(benign_dir) and have_tree:
         for bid in sorted(os.listdir(benign_dir)):
             pp = os.path.join(benign_dir, bid, "patch.diff")
             if not os.path.isfile(pp):
@@ -240,27 +235,42 @@ def run(prop, repo, seed):
             touched = {l.split(" b/", 1)[1].strip() for l in open(pp, errors="replace") if l.startswith("diff --git ") and " b/" in l}
             if not (touched & set(files)):
                 continue
-            tmp = tempfile.mkdtemp(prefix="fsv_benign.")
             try:
-                shutil.copytree(os.path.join(repo.root, "forsys"), os.path.join(tmp, "forsys"), ignore=shutil.ignore_patterns("__pycache__"))
-                subprocess.run(["git", "init", "-q", "."], cwd=tmp, stdout=subprocess.DEVNULL, stderr=subprocess.DEVNULL)
-                r = subprocess.run(["git", "apply", "--whitespace=nowarn", pp], cwd=tmp, stdout=subprocess.DEVNULL, stderr=subprocess.DEVNULL)
-                if r.returncode != 0:
-                    table.append(dict(variant=f"refactoring {bid}", kind="preserving", outcome="not-applicable (patch does not apply to this tree)"))
-                    continue
-                out, detail = run_variant(prop, Repo.load(tmp))
-                n_benign += 1
-                try:
-                    title = json.load(open(os.path.join(benign_dir, bid, "meta.json"))).get("title", "")
-                except Exception:
-                    title = ""
-                table.append(dict(variant=f"refactoring {bid}: {str(title)[:100]}", kind="preserving", outcome=out, detail=detail))
-                # a refactoring may make the check refuse (exit 2, 'cannot decide'); what it must never do is raise an alarm
-                if out == "violation" and base_out != "violation":
-                    broken.append(f"behaviour-preserving refactoring {bid} raised an alarm: {detail}")
-            finally:
-                shutil.rmtree(tmp, ignore_errors=True)
-    from . import sym
+                title = json.load(open(os.path.join(benign_dir, bid, "meta.json"))).get("title", "")
+            except Exception:
+                title = ""
+            n_benign += 1
+            add(dict(variant=f"refactoring {bid}: {str(title)[:100]}", kind="preserving", bid=bid), "no-alarm", (lambda pp=pp: patched(pp)))
+
+    # ---- evaluate in parallel (fork: the thunks are inherited, only results travel)
+    global _TASKS
+    _TASKS = [t[2] for t in tasks]
+    jobs = max(1, min(int(os.environ.get("FSV_JOBS", "0") or 0) or (os.cpu_count() or 2), 16, len(tasks) or 1))
+    if jobs > 1 and len(tasks) > 1:
+        try:
+            with multiprocessing.get_context("fork").Pool(jobs) as pool:
+                results = pool.map(_run_task, range(len(tasks)), chunksize=1)
+        except Exception:
+            results = [_run_task(i) for i in range(len(tasks))]
+    else:
+        results = [_run_task(i) for i in range(len(tasks))]
+    _TASKS = []
+    for (row, expect, _), (out, detail) in zip(tasks, results):
+        row = dict(row, outcome=out, detail=detail)
+        sid, bid = row.pop("sid", None), row.pop("bid", None)
+        table.append(row)
+        if out.startswith("not-applicable"):
+            continue
+        if expect == "violation" and out != "violation":
+            if sid:
+                broken.append(f"seeded change {sid}, on record as caught by {prop}, is no longer reported ({out}: {detail})")
+            else:
+                broken.append(f"pinned breaking variant '{row['variant']}' was not reported ({out}: {detail})")
+        elif expect == "same" and out != base_out:
+            broken.append(f"behaviour-preserving variant '{row['variant']}' changed the verdict to {out}: {detail}")
+        elif expect == "no-alarm" and (out == "error" or (out == "violation" and base_out != "violation")):
+            # a refactoring may make the check refuse (exit 2, 'cannot decide'); what it must never do is raise an alarm
+            broken.append(f"behaviour-preserving refactoring {bid} raised an alarm: {detail}")
     sym._cache.clear()
     extra = dict(selftest=dict(seeded_changes_rechecked=n_seed, refactorings_rechecked=n_benign, variants=len(table), applied=n_applied,
                                killed=sum(1 for t in table if t["kind"] == "breaking" and t.get("outcome") == "violation"),
